@@ -600,6 +600,12 @@ func structuralCorruptions(img []byte, ps int, res *dec.Result, t *sim.Tape) []c
 			}
 		}
 	}
+	// invalid type in the header of a meta page (either slot; the record and its checksum stay intact)
+	for id := uint64(0); id < 2; id++ {
+		po := pageOff(id)
+		bad := []uint16{0x40, 0, dec.FlagMeta | 0x10, dec.FlagMeta | 0x01, dec.FlagMeta | 0x8000, dec.FlagMeta | dec.FlagLeaf}[t.Intn(6)]
+		out = append(out, corruption{"bad-type", fmt.Sprintf("meta page %d header flags set to %#x", id, bad), func(b []byte) { le.PutUint16(b[po+8:], bad) }})
+	}
 	for _, id := range reach {
 		po := pageOff(id)
 		flags := res.Heads[id]
